@@ -658,6 +658,8 @@ func execLine(h *hist, line string) (out string) {
 		return res
 	case "G.order":
 		return kv("o", showB(stable(secp.Order)))
+	case "G.consts":
+		return join(kv("cs", secp.Ciphersuite()), kv("sl", strconv.Itoa(secp.ScalarLength())), kv("el", strconv.Itoa(secp.ElementLength())))
 	case "G.base":
 		return ptOut(secp.Base())
 	}
